@@ -12,13 +12,20 @@ A read = list of alignments (locus, kind, secondary flag); `kind` decides the ex
   skip_novel        E1 - novel exon - E3 (inconsistent)
   intron            inside the first intron (uninformative)
   inter             behind the gene (intergenic)
+  inter3            three blocks behind the gene (a spliced alignment in an unannotated region: intergenic)
+A read may come in several copies (`add_read(..., copies=6, polya=20)`): reads "<name>.<k>" with the same alignments and a
+polyA tail on every alignment, so that the model-construction thresholds are met and transcript models are BUILT from the
+multi-mapped reads (audit-2 GAP C08-1: without that nothing downstream of the multimapper flag was observable).  The
+introns only such reads have (`alt`, `skip_novel`, `inter3`) are made canonical in the reference.
 The classification is whatever the assigner says: the oracle reads it from a second run in which every alignment
 record is its own, primary, single-record read.
 """
+import random
+
 from gen.synth import Dataset
 
 LOCUS_LEN = 6000
-KINDS = ["fsm_a", "fsm_b", "ism_a", "mono", "alt", "skip_novel", "intron", "inter"]
+KINDS = ["fsm_a", "fsm_b", "ism_a", "mono", "alt", "skip_novel", "intron", "inter", "inter3"]
 
 
 def locus_exons(p):
@@ -44,6 +51,8 @@ def kind_exons(kind, p, jitter=0):
         return [(p + 401 + j, p + 700)]
     if kind == "inter":
         return [(p + 3501 + j, p + 3900)]
+    if kind == "inter3":
+        return [(p + 3401 + j, p + 3600), (p + 3801, p + 4000), (p + 4201, p + 4400)]
     raise ValueError(kind)
 
 
@@ -55,7 +64,9 @@ class MultimapDataset:
         self.seed = seed
         self.n_chroms = n_chroms
         self.loci = []          # (chrom index, base position, gene id)
-        self.reads = []         # (name, [(locus index, kind, secondary, jitter)])
+        self.reads = []         # (name, [(locus index, kind, secondary, jitter, mapq)]) - one entry per copy
+        self.group = {}         # read name -> (name given to add_read, number of copies)
+        self.tail = {}          # read name -> length of the polyA tail on each of its alignments
         self.per_chrom = [0] * n_chroms
 
     def new_locus(self, c):
@@ -65,45 +76,72 @@ class MultimapDataset:
         self.loci.append((c, p, gid))
         return len(self.loci) - 1
 
-    def add_read(self, name, alns):
-        self.reads.append((name, alns))
+    def add_read(self, name, alns, copies=1, polya=0):
+        """alns: [(locus index, kind, secondary, jitter[, mapq])]"""
+        alns = [tuple(a) + (60,) * (5 - len(a)) for a in alns]
+        for k in range(copies):
+            nm = name if copies == 1 else "%s.%d" % (name, k)
+            self.reads.append((nm, alns))
+            self.group[nm] = (name, copies)
+            self.tail[nm] = polya
 
-    def build(self, chrom_order=None, paddings=None, split_names=False, drop_multi=False):
+    def build(self, chrom_order=None, paddings=None, split_names=False, drop_multi=False, keep=None):
         """-> gen.synth.Dataset.  chrom_order: order of the chromosomes in the FASTA/BAM header;
         paddings: extra length per chromosome index (decides the processing order);
-        split_names: every alignment record becomes its own primary read "<name>~k" (classification run)"""
+        split_names: every alignment record becomes its own primary read "<name>~k" (classification run);
+        drop_multi: no multi-mapped read at all; keep: {read name: set of alignment indices} - only these records of the
+        multi-mapped reads are written, flags as they were (the run WITHOUT the alignments that lost)"""
         ds = Dataset(self.seed)
         order = chrom_order or list(range(self.n_chroms))
         paddings = paddings or [0] * self.n_chroms
         for c in order:
-            ds.add_chrom("chr%d" % (c + 1), 2000 + max(1, self.per_chrom[c]) * LOCUS_LEN + paddings[c])
+            # the sequence of a chromosome depends on (seed, chromosome) only and a longer one extends the shorter one, so
+            # that header order and paddings change nothing under the loci (reads with tails are classified by the
+            # bases behind their last block as well)
+            r = random.Random("%d:%d" % (self.seed, c))
+            n = 2000 + max(1, self.per_chrom[c]) * LOCUS_LEN + paddings[c]
+            ds.chroms["chr%d" % (c + 1)] = "".join(r.choice("ACGT") for _ in range(n))
         for li, (c, p, gid) in enumerate(self.loci):
             e1, e2, e3 = locus_exons(p)
             chrom = "chr%d" % (c + 1)
             ds.add_gene(chrom, gid, "+", [(gid + "_Ta", [e1, e2, e3]), (gid + "_Tb", [e1, e3])])
+        # the introns only the multi-mapped reads have are canonical too (whatever `keep` says: one reference for all runs)
+        for name, alns in self.reads:
+            for li, kind, secondary, jitter, mapq in alns:
+                if kind in ("alt", "skip_novel", "inter3"):
+                    c, p, gid = self.loci[li]
+                    ex = kind_exons(kind, p, jitter)
+                    ds.plant_sites("chr%d" % (c + 1), [(ex[i][1] + 1, ex[i + 1][0] - 1) for i in range(len(ex) - 1)], "+")
+        for li, (c, p, gid) in enumerate(self.loci):
+            e1, e2, e3 = locus_exons(p)
+            chrom = "chr%d" % (c + 1)
             # one confirming full-length read per isoform
             ds.read_from_exons("conf_a_%d" % li, chrom, [(e1[0] + 10, e1[1]), e2, (e3[0], e3[1] - 10)], polya=20)
             ds.read_from_exons("conf_b_%d" % li, chrom, [(e1[0] + 10, e1[1]), (e3[0], e3[1] - 10)], polya=20)
         if not drop_multi:
             for name, alns in self.reads:
-                for k, (li, kind, secondary, jitter) in enumerate(alns):
+                for k, (li, kind, secondary, jitter, mapq) in enumerate(alns):
+                    if keep is not None and k not in keep.get(name, ()):
+                        continue
                     c, p, gid = self.loci[li]
                     ex = kind_exons(kind, p, jitter)
                     if split_names:
-                        ds.read_from_exons("%s~%d" % (name, k), "chr%d" % (c + 1), ex, flag=0)
+                        ds.read_from_exons("%s~%d" % (name, k), "chr%d" % (c + 1), ex, flag=0, mapq=mapq, polya=self.tail[name])
                     else:
-                        ds.read_from_exons(name, "chr%d" % (c + 1), ex, flag=256 if secondary else 0)
+                        ds.read_from_exons(name, "chr%d" % (c + 1), ex, flag=256 if secondary else 0, mapq=mapq,
+                                           polya=self.tail[name])
         return ds
 
     def alignment_key(self, name, k):
-        li, kind, secondary, jitter = dict(self.reads)[name][k]
+        li, kind, secondary, jitter, mapq = dict(self.reads)[name][k]
         c, p, gid = self.loci[li]
         ex = kind_exons(kind, p, jitter)
         return ("chr%d" % (c + 1), ex[0][0], ex[-1][1])
 
 
 def random_dataset(rng, seed, n_reads=14, n_chroms=3):
-    """patterns: (kind, secondary, locus tag) - alignments of one read with the same tag share a locus (one gene)"""
+    """patterns: (kind, secondary, locus tag[, mapq]) - alignments of one read with the same tag share a locus (one gene);
+    n_reads counts the reads given to add_read (a read with copies is one of them)"""
     md = MultimapDataset(seed, n_chroms)
     patterns = [
         [("fsm_a", 0, "a"), ("fsm_a", 1, "b")],                        # primary unique-consistent wins
@@ -121,25 +159,43 @@ def random_dataset(rng, seed, n_reads=14, n_chroms=3):
         [("mono", 0, "a"), ("fsm_a", 1, "a")],
         [("intron", 0, "a"), ("ism_a", 1, "b"), ("fsm_b", 1, "b")],
     ]
+    # audit-2 GAP C08-1: ONE retained record that names two isoforms at its own locus (the read of a novel isoform) + an
+    # alignment that loses; six copies with tails, so that a transcript model is built from them when nothing interferes
+    built = [
+        [("alt", 0, "a"), ("inter3", 1, "b", 0)],                      # the loser is a spliced intergenic secondary, MAPQ 0
+        [("alt", 0, "a"), ("intron", 1, "b")],                         # the loser is uninformative inside another gene
+        [("skip_novel", 0, "a"), ("inter", 1, "b", 0)],
+        [("alt", 0, "a"), ("fsm_a", 1, "b"), ("fsm_b", 1, "c")],       # a real tie, in copies: flagged, builds nothing
+        [("fsm_a", 0, "a"), ("alt", 1, "b")],                          # primary unique wins, the secondary would build a model
+    ]
     for i in range(n_reads):
+        copies, polya = 1, 0
         if i < len(patterns):
             pat = patterns[i]
+        elif i < len(patterns) + len(built):
+            pat = built[i - len(patterns)]
+            copies, polya = 6, 20
         else:
             tags = "abcd"
             pat = []
             for k in range(rng.randint(2, 4)):
                 tag = tags[k] if (k == 0 or rng.random() > 0.3) else rng.choice(tags[:k])
-                pat.append((rng.choice(KINDS), int(rng.random() < 0.7), tag))
-            if all(sec for _, sec, _ in pat):
-                pat[0] = (pat[0][0], 0, pat[0][2])
+                sec = int(rng.random() < 0.7)
+                pat.append((rng.choice(KINDS), sec, tag, 0 if sec and rng.random() < 0.3 else 60))
+            if all(x[1] for x in pat):
+                pat[0] = (pat[0][0], 0, pat[0][2], 60)
+            copies = rng.choice([1, 5, 6])
+            polya = 20 if copies > 1 or rng.random() < 0.5 else 0
         alns = []
         by_tag = {}
-        for kind, sec, tag in pat:
+        for x in pat:
+            kind, sec, tag = x[:3]
             if tag not in by_tag:
                 by_tag[tag] = md.new_locus(rng.randrange(n_chroms))
                 jit = 0
             else:
-                jit = 0 if i < len(patterns) else rng.choice([0, 7])
-            alns.append((by_tag[tag], kind, bool(sec), jit))
-        md.add_read("mm%02d" % i, alns)
+                jit = 0 if i < len(patterns) + len(built) else rng.choice([0, 7])
+            alns.append((by_tag[tag], kind, bool(sec), jit, x[3] if len(x) > 3 else 60))
+        md.add_read("mm%02d" % i, alns, copies=copies, polya=polya)
+    md.n_groups = n_reads
     return md
